@@ -619,7 +619,10 @@ def render_wfn(rng):
     for ic, l, nprim in shells:
         ex = sorted((round(10 ** rng.uniform(-0.6, 1.3), 5) for _ in range(nprim)), reverse=True)
         dk = [round(rng.uniform(0.2, 0.9), 5) for _ in range(nprim)]
-        for c in range(ncomp[l]):
+        comps = list(range(ncomp[l]))
+        if l and rng.random() < 0.5:     # the type codes carry the meaning: a shell may list its components in any order
+            rng.shuffle(comps)
+        for c in comps:
             for k in range(nprim):
                 cent.append(ic + 1)
                 typ.append(first[l] + c + 1)
@@ -656,6 +659,67 @@ def render_wfn(rng):
         for s0 in range(0, len(co), 5):
             lines.append("".join(d(v, 16, 8) for v in co[s0:s0 + 5]))
     lines += ["END DATA", f" TOTAL ENERGY =  {-74.965901217080:20.12f} THE VIRIAL(-V/T)={2.00600239:13.8f}"]
+    return "\n".join(lines) + "\n"
+
+
+def render_mwfn(rng):
+    """A Multiwfn .mwfn file in the layout Multiwfn 3.7 writes (transcribed from the sample files): Cartesian s..h and pure d..h
+    shells (types 0..5 and -2..-5, functions in the order of a formatted checkpoint file), all orbitals incl. virtual ones,
+    restricted or unrestricted.  Coefficients refer to normalised contractions of normalised primitives."""
+    from ..refeval import overlap as ref_overlap
+    from iodata.basis import MolecularBasis, Shell
+    natom = rng.randint(1, 3)
+    xyz = [[round(rng.uniform(-0.8, 0.8) + 1.1 * i, 8) for _ in range(3)] for i in range(natom)]       # angstrom
+    z = [rng.choice([1, 6, 8, 7, 2]) for _ in range(natom)]
+    sym = {1: "H", 2: "He", 6: "C", 7: "N", 8: "O"}
+    nfun = {0: 1, 1: 3, 2: 6, 3: 10, 4: 15, 5: 21, -2: 5, -3: 7, -4: 9, -5: 11}
+    shells = []
+    while not shells or (len(shells) < 4 and rng.random() < 0.6 and sum(nfun[t] for _c, t, _n in shells) < 24):
+        t = rng.choice([0, 0, 1, 1, 2, -2, -2, 3, -3, -3, -4, -4, 4, -5, 5])
+        shells.append((rng.randrange(natom), t, rng.randint(1, 3)))
+    shells.sort(key=lambda q: q[0])
+    expo, con = [], []
+    for _c, t, npr in shells:
+        ex = sorted({round(10 ** rng.uniform(-0.6, 1.2), 6) for _ in range(npr)}, reverse=True)
+        while len(ex) < npr:
+            ex.append(round(ex[-1] * 0.37, 6))
+        dk = np.array([round(rng.uniform(0.2, 0.9), 6) for _ in range(npr)])
+        l, kind = abs(t), ("p" if t < 0 else "c")
+        conv = {(l, kind): _gauss_pure(l) if kind == "p" else _gauss_cart(l)}
+        one = MolecularBasis([Shell(0, [l], [kind], np.array(ex), dk[:, None])], conv, "L2")
+        dk = dk / float(np.sqrt(ref_overlap(one, np.zeros((1, 3)))[0, 0]))          # a normalised contraction, as the programs store it
+        expo += list(ex)
+        con += [float(f"{v:.8E}") for v in dk]
+    nbasis = sum(nfun[t] for _c, t, _n in shells)
+    unres = rng.random() < 0.4
+    nocc_a = rng.randint(1, nbasis)
+    nocc_b = rng.randint(0, nocc_a) if unres else nocc_a
+
+    def e8(v):
+        return f"{v:16.8E}"
+
+    def chunks(vals, per, fmt):
+        return ["".join(fmt(v) for v in vals[c:c + per]) for c in range(0, len(vals), per)]
+
+    lines = ["# Generated by the independent writer", f"Wfntype={1 if unres else 0:4d}", f"Charge={float(sum(z) - nocc_a - nocc_b):15.6f}",
+             f"Naelec={float(nocc_a):15.6f}", f"Nbelec={float(nocc_b):15.6f}", f"E_tot={-39.0770088 - 0.01 * nbasis:16.8E}", f"VT_ratio={2.00168405:12.8f}", "",
+             "# Atom information", f"Ncenter={natom:8d}", "$Centers"]
+    lines += [f"{i + 1:6d} {sym[z[i]]:<2s}{z[i]:5d}{float(z[i]):6.1f}{r[0]:16.8f}{r[1]:16.8f}{r[2]:16.8f}" for i, r in enumerate(xyz)]
+    lines += ["", "# Basis function information", f"Nbasis={nbasis:12d}", f"Nindbasis={nbasis:9d}", f"Nprims={sum(abs(nfun[abs(t)]) * n for _c, t, n in shells):12d}",
+              f"Nshell={len(shells):12d}", f"Nprimshell={len(expo):8d}", "$Shell types"] + chunks([t for _c, t, _n in shells], 25, lambda v: f"{v:3d}")
+    lines += ["$Shell centers"] + chunks([c + 1 for c, _t, _n in shells], 10, lambda v: f"{v:8d}")
+    lines += ["$Shell contraction degrees"] + chunks([n for _c, _t, n in shells], 20, lambda v: f"{v:4d}")
+    lines += ["$Primitive exponents"] + chunks(expo, 5, e8) + ["$Contraction coefficients"] + chunks(con, 5, e8)
+    lines += ["", f"# Orbital information ({2 if unres else 1}*nindbasis orbitals)", " "]
+    idx = 0
+    for typ, nocc in (((1, nocc_a), (2, nocc_b)) if unres else ((0, nocc_a),)):
+        for j in range(nbasis):
+            idx += 1
+            occ = (1.0 if unres else 2.0) if j < nocc else 0.0
+            co = [float(f"{rng.uniform(-1.0, 1.0):.8E}") for _ in range(nbasis)]
+            lines += [f"Index={idx:10d}", f"Type={typ:2d}", f"Energy={-11.0 + 0.731 * j + 0.013 * typ:16.8E}", f"Occ={occ:10.6f}", "Sym= ?", "$Coeff"]
+            lines += chunks(co, 5, e8) + [" "]
+    lines += ["", "# Various matrices", ""]
     return "\n".join(lines) + "\n"
 
 
@@ -862,6 +926,11 @@ def check(run: Run):
         with open(gp, "w") as fh:
             fh.write(render_wfn(random.Random(run.seed * 7717 + k)))
         foreign.append((gp, "wfn"))
+    for k in range(run.pick(40, 600)):
+        gp = os.path.join(gdir, f"generated_{k:03d}.mwfn")
+        with open(gp, "w") as fh:
+            fh.write(render_mwfn(random.Random(run.seed * 9923 + k)))
+        foreign.append((gp, "mwfn"))
     fevents = pmap(foreign_load, foreign, chunksize=1)
     events = events + fevents
     run.notes["foreign_files_loaded"] = len(fevents)
